@@ -23,7 +23,7 @@ EXPLANATION = (
     'that shifts until the mask is zero) - the cascade {8,4,2,1} is only correct below 2^16. C15.c: binary->Gray is '
     'n ^ (n >> 1); bit errors are counted as the sum of the popcount of the xor of the two arguments; popcount is '
     'the shift-and-test loop. Not decided: adjacency of nearest neighbours as geometry, values of the conversions.'
-    ' General rules also applied here (see DESIGN 10.5): input immutability (no in-place modification of an array argument, alias- and view-aware).')
+    ' General rules also applied here (see DESIGN 10.5): input immutability (no in-place modification of an array argument, alias- and view-aware). C15.b also understands guarded cascade steps (the shift-s step must run whenever the largest input is >= 2**s).')
 
 GRAY_FUNCS = {'binary2gray', 'gray2binary'}
 
@@ -463,6 +463,12 @@ def synthetic():
 
 
 MUTANTS = [
+    Mutant('guarded-cascade-step-off-by-one', CONV, 'gray2binary',
+           [('replace', 'temp = xor(num, num >> 32)', 'largest = np.max(num)\n    temp = xor(num, num >> 32)'),
+            ('replace', 'temp = xor(temp, temp >> 16)', 'if largest > 2 ** 16:\n        temp = xor(temp, temp >> 16)')], r'C15\.b:gray2binary:guard:16'),
+    Mutant('benign-guarded-cascade-step', CONV, 'gray2binary',
+           [('replace', 'temp = xor(num, num >> 32)', 'largest = np.max(num)\n    temp = xor(num, num >> 32)'),
+            ('replace', 'temp = xor(temp, temp >> 16)', 'if largest >= 2 ** 16:\n        temp = xor(temp, temp >> 16)')], None, benign=True),
     Mutant('qam-installs-natural-order', FUND, 'QAM.__init__',
            [('delete', r'symbols = symbols\[grayMappingIndexes\]')], r'C15\.a:QAM\.__init__'),
     Mutant('psk-init-natural-order', FUND, 'PSK.__init__',
